@@ -182,8 +182,6 @@ write_record_contract!(write_record_contract_len2_pos3, 2, 3);
 write_record_contract!(write_record_contract_len7_pos57, 7, 57);
 write_record_contract!(write_record_contract_len64_pos0, 64, 0);
 write_record_contract!(write_record_contract_len1_pos63, 1, 63);
-write_record_contract!(write_record_contract_len2_anypos, 2, kani::any());
-write_record_contract!(write_record_contract_len7_anypos, 7, kani::any());
 
 /// write_record refuses on a read-only log and leaves the disk alone.
 #[kani::proof]
@@ -329,7 +327,7 @@ scan_matches_spec!(wal_scan_matches_spec_r64_len0, 64, 40, 0, 0);
 scan_matches_spec!(wal_scan_matches_spec_r64_len1, 64, 40, 1, 0);
 scan_matches_spec!(wal_scan_matches_spec_r64_len16, 64, 40, 16, 0);
 scan_matches_spec!(wal_scan_matches_spec_r64_len17, 64, 40, 17, 0);
-scan_matches_spec!(wal_scan_matches_spec_r64_lenmax, 64, 40, 0xFFFF_FFFFu32, 0u32);
+scan_matches_spec!(wal_scan_matches_spec_r64_len64, 64, 40, 64, 0);
 scan_matches_spec!(wal_scan_matches_spec_r112_len1_len1, 112, 40, 1, 1);
 scan_matches_spec!(wal_scan_matches_spec_r112_len8_len0, 112, 40, 8, 0);
 scan_matches_spec!(wal_scan_matches_spec_r112_len8_len8, 112, 40, 8, 8);
@@ -381,7 +379,7 @@ fn any_scan(n: usize) {
 }
 
 macro_rules! records_after_contract {
-    ($name:ident, $n:expr) => {
+    ($name:ident, $n:expr, $next:expr) => {
         #[kani::proof]
         #[kani::stub(EmbeddedWal::scan_records, scan_stub)]
         #[kani::stub(<std::fs::File as std::io::Seek>::seek, stub_seek)]
@@ -391,6 +389,11 @@ macro_rules! records_after_contract {
         fn $name() {
             any_disk();
             any_scan($n);
+            // next_head is enumerated per harness (concrete): the sentinel writer allocates a zero tail of
+            // region_size - next_head bytes, and a symbolic allocation length makes CBMC diverge
+            unsafe {
+                GHOST_NEXT = $next;
+            }
             let read_only: bool = kani::any();
             let mut wal = wal_with(kani::any(), kani::any(), kani::any(), kani::any(), read_only);
             let old_seq = wal.sequence;
@@ -441,13 +444,14 @@ macro_rules! records_after_contract {
         }
     };
 }
-records_after_contract!(wal_records_after_n0, 0);
-records_after_contract!(wal_records_after_n1, 1);
-records_after_contract!(wal_records_after_n2, 2);
-records_after_contract!(wal_records_after_n3, 3);
+records_after_contract!(wal_records_after_n0_head0, 0, 0);
+records_after_contract!(wal_records_after_n1_head49, 1, 49);
+records_after_contract!(wal_records_after_n2_tail, 2, SIZE - 13);
+records_after_contract!(wal_records_after_n2_full, 2, SIZE);
+records_after_contract!(wal_records_after_n3_head, 3, 64);
 
 macro_rules! open_contract {
-    ($name:ident, $n:expr) => {
+    ($name:ident, $n:expr, $next:expr) => {
         #[kani::proof]
         #[kani::stub(EmbeddedWal::scan_records, scan_stub)]
         #[kani::stub(<std::fs::File as std::io::Seek>::seek, stub_seek)]
@@ -458,6 +462,9 @@ macro_rules! open_contract {
         fn $name() {
             any_disk();
             any_scan($n);
+            unsafe {
+                GHOST_NEXT = $next;
+            }
             let before: [u8; DISK] = unsafe { DISK_BYTES };
             let header = Header {
                 magic: kani::any(),
@@ -508,40 +515,46 @@ macro_rules! open_contract {
         }
     };
 }
-open_contract!(wal_open_contract_n0, 0);
-open_contract!(wal_open_contract_n2, 2);
-open_contract!(wal_open_contract_n3, 3);
+open_contract!(wal_open_contract_n0_head0, 0, 0);
+open_contract!(wal_open_contract_n2_tail, 2, SIZE - 1);
+open_contract!(wal_open_contract_n3_head, 3, 64);
 
 // ---------------------------------------------------------------------------------------------
 // A-FILE hand-off for the sentinel writers on real bytes: for EVERY position write_zero_header(pos)
 // changes nothing below pos, nothing outside the region, and leaves either a zero header at pos or
 // a zero tail shorter than a header (= the `end_marked` postcondition Verus proves over the File
 // model, here on the in-memory disk, bit-precise).
-#[kani::proof]
-#[kani::stub(<std::fs::File as std::io::Seek>::seek, stub_seek)]
-#[kani::stub(<std::fs::File as std::io::Write>::write, stub_write)]
-#[kani::stub(std::fs::File::sync_all, stub_sync_all)]
-#[kani::unwind(52)]
-fn wal_write_zero_header_bytes() {
-    any_disk();
-    let before: [u8; DISK] = unsafe { DISK_BYTES };
-    let mut wal = wal_with(kani::any(), kani::any(), kani::any(), kani::any(), false);
-    let pos: u64 = kani::any();
-    kani::assume(pos <= SIZE);
-    let r = wal.write_zero_header(pos);
-    assert!(r.is_ok(), "succeeds when the disk does");
-    assert!(r.unwrap() == pos, "the head stays where it is");
-    let after: [u8; DISK] = unsafe { DISK_BYTES };
-    let i: usize = kani::any();
-    kani::assume(i < DISK);
-    let lo = (OFF + pos) as usize;
-    let hi = if pos + 48 <= SIZE { lo + 48 } else { (OFF + SIZE) as usize };
-    if i < lo || i >= hi {
-        assert!(after[i] == before[i], "only the sentinel bytes change");
-    } else {
-        assert!(after[i] == 0, "sentinel bytes are zero");
-    }
-    kani::cover!(pos + 48 > SIZE && pos < SIZE, "short tail");
-    kani::cover!(pos == SIZE, "head at the region end");
-    core::mem::forget(wal);
+macro_rules! zero_header_bytes {
+    ($name:ident, $pos:expr) => {
+        #[kani::proof]
+        #[kani::stub(<std::fs::File as std::io::Seek>::seek, stub_seek)]
+        #[kani::stub(<std::fs::File as std::io::Write>::write, stub_write)]
+        #[kani::stub(std::fs::File::sync_all, stub_sync_all)]
+        #[kani::unwind(52)]
+        fn $name() {
+            any_disk();
+            let before: [u8; DISK] = unsafe { DISK_BYTES };
+            let mut wal = wal_with(kani::any(), kani::any(), kani::any(), kani::any(), false);
+            let pos: u64 = $pos; // enumerated: the zero tail is allocated with length region_size - pos
+            let r = wal.write_zero_header(pos);
+            assert!(r.is_ok(), "succeeds when the disk does");
+            assert!(r.unwrap() == pos, "the head stays where it is");
+            let after: [u8; DISK] = unsafe { DISK_BYTES };
+            let i: usize = kani::any();
+            kani::assume(i < DISK);
+            let lo = (OFF + pos) as usize;
+            let hi = if pos + 48 <= SIZE { lo + 48 } else { (OFF + SIZE) as usize };
+            if i < lo || i >= hi {
+                assert!(after[i] == before[i], "only the sentinel bytes change");
+            } else {
+                assert!(after[i] == 0, "sentinel bytes are zero");
+            }
+            core::mem::forget(wal);
+        }
+    };
 }
+zero_header_bytes!(wal_zero_header_bytes_pos0, 0);
+zero_header_bytes!(wal_zero_header_bytes_pos64, SIZE - 48);
+zero_header_bytes!(wal_zero_header_bytes_pos65, SIZE - 47);
+zero_header_bytes!(wal_zero_header_bytes_pos111, SIZE - 1);
+zero_header_bytes!(wal_zero_header_bytes_pos112, SIZE);
